@@ -57,6 +57,14 @@ CLAIMED = {
    text="The C03 schedules with fences placed inside fire-and-forget write bursts while hooks delay the follower's sync goroutine and the writers. After every NewTerm answer the node's synced AND appended log end must equal the reported head and stay equal while polled, a client write must be refused, stale Truncate/BecomeLeader/AddFollower of the previous term must be refused and change nothing, and no ack above the reported head may leave on a stream of an older term.",
    note="'Never again' is checked up to the end of each finite run; acks at or below the reported head that leave after the answer are not counted as progress (the entries are part of the reported log).",
    technique="invariant monitor over hook and stream events with hook-widened fence windows + race detector"),
+ "C06": dict(engine="repl", level="exploration",
+   text="One generated request sequence (sessions created/closed, ephemerals, sequence puts, indexes, conditional ops, ranges on both sides of the 100-key switch) is applied on a real 3-node group and the same applied offset is reached by six routes: leader live, follower live, follower replaying from a crash image of its database, follower rebuilt from a snapshot (chunk 64B..1MiB) plus the tail, a fresh database folded over the leader's log, replicas with explicit flushes; decoded full dumps (notification batches compared semantically, everything else byte-exact, node-local term keys excluded) are compared pairwise at equal applied offsets.",
+   note="Time-based notification trimming is node-local by design and disabled (1h retention) in these runs; the C03 schedules add the same dump comparison under elections.",
+   technique="differential replay: dump-and-compare across application routes"),
+ "C07": dict(engine="repl", level="fault_enumeration",
+   text="On an RF=1 leader under 1..8 concurrent writers with explicit flushes, a crash image (Pebble checkpoint = durable state without memtable + copy of the WAL directory, taken while the goroutine at the crash point is held) is produced at every hit of the apply/term hooks (evenly thinned to <= 60 per scenario). Every image is opened raw (commit offset within its log; dump == fresh DB folded over its log [0..c]) and through the real restart path (replay starts at c+1, applied offsets consecutive, final dump == fold of the whole image log). Online: applied offsets consecutive on every database instance (also in the C03 schedules with followers).",
+   note="The fold uses the same ProcessWrite; skipped, doubled or reordered application changes version ids and modification counts and shows in the dumps. Crash points inside Pebble's own flush are not enumerated (images whose two copies straddle a flush are discarded and counted).",
+   technique="crash-point fault injection at hooks + recovery oracle (state == fold of the log)"),
 }
 
 NOT_APPLICABLE = {}
